@@ -2,6 +2,7 @@ SPECIFICATION Spec
 CONSTANT Tier = "quick"
 CONSTANT ChunkBytes = 4
 CONSTANT CMax = 2
+CONSTANT Variant = "faithful"
 INVARIANT Refines
 INVARIANT ErrSound
 INVARIANT LimitSound
